@@ -706,6 +706,20 @@ func checkC19(w *World, r *Recorder) propInfo {
 	// library defaults are violations; the defaults themselves are the known
 	// finding D9 seen from this property.
 	ruleOptions(w, r, "C19-Y8", "DecOptions", "own-encodings")
+	// Y10: "a failed attempt does not prevent a later successful one": whether
+	// Verify fails depends on the envelope alone — every failing path follows a
+	// go-cose error or the missing-envelope guard (C03-S6 run again under this
+	// property), not some other state an earlier operation left in the Evidence
+	importRules(w, r, checkC03, "C19-Y10", func(o *Oblig) bool { return o.Rule == "C03-S6" })
+	// Y9: for claims of an extension profile the payload signed comes from the
+	// embedding-aware serialiser: it may leave a field out only under the C15-H4
+	// conditions (a present claim silently dropped from the signed payload makes
+	// the attached claims differ from the decoding of what was signed)
+	for _, n := range []string{"doSerializeStructToCBOR"} {
+		sub := NewRecorder(r.Property)
+		c15Walker(w, sub, n)
+		remap(r, sub, map[string]string{"C15-H4": "C19-Y9"})
+	}
 	r.Floor("C19-Y5", 1)
 	return info
 }
